@@ -67,8 +67,9 @@ def _patch_numba_cache():
     function as an argument (reduce_array_pair, _group_by_reduce, _cumulative_reduce) are declared
     cache=True; when a *second* process adds a specialisation to an on-disk index written by a
     first one, re-pickling the index raises ReferenceError('underlying object has vanished') and the
-    call fails although compilation succeeded.  The harness makes a failed cache *save* a no-op
-    (the specialisation is simply not cached)."""
+    call fails although compilation succeeded; and an overload *loaded* from another process' index
+    can fail at call time with "can't unbox array from PyObject".  The harness bypasses the on-disk
+    cache for exactly those specialisations (they are compiled in-process)."""
     global _patched
     if _patched:
         return
@@ -76,15 +77,34 @@ def _patch_numba_cache():
         from numba.core import caching
     except Exception:
         return
-    orig = caching.Cache.save_overload
+    from numba.core import types as _nbt
+    orig_save = caching.Cache.save_overload
+    orig_load = caching.Cache.load_overload
+
+    def _takes_function(sig):
+        try:
+            args = sig.args if hasattr(sig, "args") else sig
+            return any(isinstance(a, (_nbt.Dispatcher, _nbt.Function)) for a in args)
+        except Exception:
+            return False
 
     def save_overload(self, sig, data):
+        if _takes_function(sig):
+            return None
         try:
-            return orig(self, sig, data)
+            return orig_save(self, sig, data)
         except ReferenceError:
             return None
 
+    def load_overload(self, sig, target_context):
+        # an overload unpickled from another process' index refers to a *rebuilt* dispatcher type and
+        # then fails at call time ("can't unbox array from PyObject"); compile in-process instead
+        if _takes_function(sig):
+            return None
+        return orig_load(self, sig, target_context)
+
     caching.Cache.save_overload = save_overload
+    caching.Cache.load_overload = load_overload
     _patched = True
 
 
